@@ -1501,6 +1501,16 @@ func contractHistory(c *Ctx, id int) {
 		call(from, to, tok, am, "DepositQsr", definition.ABICommon.PackMethodPanic(definition.DepositQsrMethodName))
 	}
 	withdrawCall := func(to types.Address, from types.Address) {
+		// mostly an account that has something deposited there
+		var deps []types.Address
+		for _, a := range everyone {
+			if v := r.qsrLog[cname(to)+"/"+addrName(a)]; v != nil && v.Sign() > 0 {
+				deps = append(deps, a)
+			}
+		}
+		if len(deps) > 0 && c.R.Intn(3) != 0 {
+			from = pick(deps)
+		}
 		am, tok := withAmount()
 		call(from, to, tok, am, "WithdrawQsr", definition.ABICommon.PackMethodPanic(definition.WithdrawQsrMethodName))
 	}
@@ -1793,6 +1803,15 @@ func contractHistory(c *Ctx, id int) {
 
 	for s := 0; s < steps && !r.failed && int(n.Height()-start) < budget; s++ {
 		x := c.R.Intn(100)
+		if c.R.Intn(40) == 0 { // reward bookkeeping calls (outside the liability sums): Update / CollectReward by anybody
+			to := []types.Address{types.StakeContract, types.PillarContract, types.SentinelContract}[c.R.Intn(3)]
+			if c.R.Intn(2) == 0 {
+				call(pick(users), to, types.ZnnTokenStandard, zero, "Update", definition.ABICommon.PackMethodPanic(definition.UpdateMethodName))
+			} else {
+				call(pick(users), to, types.ZnnTokenStandard, zero, "CollectReward", definition.ABICommon.PackMethodPanic(definition.CollectRewardMethodName))
+			}
+			continue
+		}
 		switch {
 		case x < 14:
 			genPlasma()
